@@ -69,6 +69,17 @@ theorem C15_chunking_with_exceptions {s s₁ s₂ : Sim} {f f' : Nat} {T : Int} 
   obtain ⟨g, hg⟩ := chunkC_pieces (reachable_inv h).1 h0 hin h₁ h₂
   exact ⟨⟨g, hg⟩, fun g' s₂' h' => runUntilC_det h' hg⟩
 
+/-- **Chunking with exceptions, progress.**  Conversely: whenever the uninterrupted run to `T` terminates (fuel `g`), EVERY list of
+    pieces within `T` — exceptions caught in between — terminates too (same fuel per piece), and from where the pieces end both the
+    uninterrupted run and the program that calls `run_until(T)` again after every exception reach that same final state. -/
+theorem C15_chunking_with_exceptions_progress {s s₂ : Sim} {g : Nat} {T : Int} {ps : List Piece} (h : Reachable s)
+    (h0 : s.raised = none) (hin : piecesWithinC g T s ps) (hc : runUntilC g s T = some s₂) :
+    ∃ s₁, runPiecesC g s ps = some s₁ ∧ runUntilC g s₁ T = some s₂ ∧ ∃ n, resume g n s₁ T = some s₂ := by
+  have hw := (reachable_inv h).1
+  obtain ⟨s₁, h1, h2⟩ := pieces_of_runUntilC hw h0 hin hc
+  obtain ⟨n, hn⟩ := resume_of_runUntilC (runPiecesC_inv hw h0 h1).2 h2
+  exact ⟨s₁, h1, h2, n, hn⟩
+
 /-- **Resumed in pieces = resumed in one piece** (the statement about programs only, no model-only loop in it): pieces within the
     horizon, exceptions caught in between, then `run_until(T)` called again and again until it returns normally, against
     `run_until(T)` called again and again from the start — if both get through they end in the same state, whatever the fuels,
